@@ -21,7 +21,7 @@ open GenOcc
 
 /-- the record of cell `c` in the model state `s` of the space `sp` -/
 def cellRec (sp : Space) (s : State) (c : Cid) (e : Bool) : CellRec :=
-  { _agents := s.occ c, capacity := (sp.cap c).map Int.ofNat, empty := (s.flag c).getD e }
+  { coordinate := c, _agents := s.occ c, capacity := (sp.cap c).map Int.ofNat, empty := (s.flag c).getD e }
 
 /-- what a generated mutator's result means in the model: the state with cell `c`'s list and flag replaced -/
 def putCell (s : State) (c : Cid) (ag : List Aid) (em : Bool) : State :=
@@ -209,5 +209,43 @@ theorem C06_gen_move_to_eq_model (sp : Space) (s : State) (a : Aid) (c : Cid) (k
   have h : move_to r c = [c] := by simp [move_to]
   rw [h]
   cases k <;> simp_all [interpSetCell, step]
+
+/-- the exceptions of the `FixedCell.cell` setter in the small error enum of the translation -/
+def fixedRes : Res → Except Py.Err Unit
+  | .err .fixed => .error Py.Err.Value          -- ValueError("Cannot move agent in FixedCell")
+  | .err .full => .error Py.Err.Exception       -- Exception("ERROR: Cell is full"), passed on from `add_agent`
+  | _ => .ok ()
+
+/-- `FixedCell.cell` (getter) as generated: the agent's `_mesa_cell` -/
+theorem C06_gen_fixed_cell_eq_model (s : State) (a : Aid) : fixed_cell ⟨a, s.cellOf a⟩ = s.cellOf a := by
+  simp [fixed_cell]
+
+/-- `FixedCell.cell` (setter, S12-repaired order) as generated = the model's `setCellFixed` with a cell as target, on the
+    agent's record and the record of the target cell: ValueError for an agent that has a cell (nothing touched), otherwise
+    `add_agent` on the target — its refusal is passed on, the agent stays unplaced and the cell's record is unchanged —, then
+    `_mesa_cell` names the target.  Result, the target cell's record afterwards and the agent's `_mesa_cell` afterwards are the
+    model's.  (The model's third case, `agent.cell = None` on an unplaced fixed agent — `None.add_agent`: AttributeError — has no
+    cell record to run on and stays with the correspondence check.) -/
+theorem C06_gen_fixed_set_cell_eq_model (sp : Space) (s : State) (a : Aid) (c : Cid) (e : Bool) :
+    fixed_set_cell ⟨a, s.cellOf a⟩ (cellRec sp s c e) =
+      (fixedRes (setCellFixed sp s a (some c)).2, cellRec sp (setCellFixed sp s a (some c)).1 c e,
+       (setCellFixed sp s a (some c)).1.cellOf a) := by
+  simp only [fixed_set_cell, fixed_cell, setCellFixed]
+  have hc : s.cellOf a = none ∨ ∃ o, s.cellOf a = some o := by cases s.cellOf a <;> simp
+  rcases hc with hc | ⟨o, hc⟩
+  · rw [gen_add_agent_spec, recFull_cellRec]
+    simp only [addAgent]
+    by_cases h : fullFor sp s c = true <;> simp [hc, h, fixedRes, cellRec, upd]
+  · simp [hc, fixedRes]
+
+/-- C18 over the generated text of the `FixedCell.cell` setter: whenever it raises — the agent has a cell already, or the
+    target is full — the target cell's record and the agent's `_mesa_cell` are returned unchanged. -/
+theorem C18_cells_fixed_set_cell_reject_generated (r : FixedRec) (cell : CellRec) (err : Py.Err)
+    (h : (fixed_set_cell r cell).1 = .error err) : (fixed_set_cell r cell).2 = (cell, r._mesa_cell) := by
+  revert h
+  simp only [fixed_set_cell, fixed_cell]
+  rw [gen_add_agent_spec]
+  have hc : r._mesa_cell = none ∨ ∃ o, r._mesa_cell = some o := by cases r._mesa_cell <;> simp
+  rcases hc with hc | ⟨o, hc⟩ <;> by_cases h2 : recFull cell = true <;> simp [hc, h2]
 
 end Mesa.Cells
